@@ -1,5 +1,6 @@
 import MdkVerif.Model.Client
 import MdkVerif.Proofs.Client
+import MdkVerif.Props.C02Win
 /-
   C02 — Application messages on the winning branch arrive exactly once, intact and valid.
   Row-level facts about `process_application_message` / `create_message` in the client model, the
@@ -133,5 +134,52 @@ theorem winning_message_valid_full_false : ¬ winning_message_valid_full := by
 
 /-- in-order delivery works: the same message offered after its commit is stored valid (non-vacuity) -/
 example : ((deliver (deliver by0 cB 0).1 m2 0).1.msgs.map (fun r => (r.mid, r.state))) = [(1, 1)] := by decide
+
+end MdkVerif.Props.C02
+
+namespace MdkVerif.Props.C02
+/-! ### reordering inside / outside the configured windows (Props/C02Win.lean, model Model/Ratchet.lean)
+
+The statements live in `Props/C02Win.lean`; they are restated here so that they are obligations of `./check C02`. -/
+open MdkVerif.Ratchet MdkVerif.Props
+
+theorem exactly_once (T F : Nat) (l : List Nat) : (acceptedGens T F Ratchet.new l).Nodup :=
+  C02Win.exactly_once T F l
+
+theorem inside_windows_all_accepted (T F : Nat) (l : List Nat) (hn : l.Nodup) (hw : inWin T F 0 l = true) :
+    (run T F Ratchet.new l).2 = l.map (fun _ => Verdict.accepted) ∧ acceptedGens T F Ratchet.new l = l ∧
+    ∀ g ∈ l, (recv T F (run T F Ratchet.new l).1 g).2 ≠ .accepted ∧
+             (recv T F (run T F Ratchet.new l).1 g).1 = (run T F Ratchet.new l).1 :=
+  C02Win.inside_windows_all_accepted T F l hn hw
+
+theorem inside_windows_all_stored (c : Cl) (m s : Nat) (ws : List Msg)
+    (ok : PastOK c.cfg.P c.joined c.st) (hs : s ≠ c.id) (hj : c.joined ≤ m) (hme : m ≤ c.st.epoch)
+    (hP : c.st.epoch - m ≤ c.cfg.P) (hL : c.st.epoch - m ≤ c.cfg.L)
+    (first : ∀ t, treeFor c.st m = some t → tlookup s t = none)
+    (same : ∀ w ∈ ws, w.sender = s ∧ w.epoch = m)
+    (gens : (ws.map (·.gen)).Nodup) (wrappers : (ws.map (·.n)).Nodup) (mids : (ws.map (·.mid)).Nodup)
+    (fresh : ∀ w ∈ ws, tlookup w.n c.recs = none)
+    (hw : inWin c.cfg.T c.cfg.F 0 (ws.map (·.gen)) = true) :
+    (deliverAll c ws).2 = ws.map (fun w => Res.app w.mid) ∧
+    (∀ w ∈ ws, findRow w.mid (deliverAll c ws).1.rows = some ⟨w.mid, s, 1, c.st.epoch, w.tok⟩) ∧
+    (∀ k, k ∉ ws.map (·.mid) → findRow k (deliverAll c ws).1.rows = findRow k c.rows) ∧
+    (∀ w ∈ ws, (deliver (deliverAll c ws).1 w).2 = .unprocessable ∧
+               (deliver (deliverAll c ws).1 w).1.rows = (deliverAll c ws).1.rows ∧
+               (deliver (deliverAll c ws).1 w).1.st = (deliverAll c ws).1.st) :=
+  C02Win.inside_windows_all_stored c m s ws ok hs hj hme hP hL first same gens wrappers mids fresh hw
+
+theorem inside_windows_all_stored_full_false : ¬ C02Win.inside_windows_all_stored_full :=
+  C02Win.inside_windows_all_stored_full_false
+
+theorem window_monotone_T (T T' F : Nat) (hT : T ≤ T') (l : List Nat) (i : Nat)
+    (h : (run T F Ratchet.new l).2[i]? = some .accepted) : (run T' F Ratchet.new l).2[i]? = some .accepted :=
+  C02Win.window_monotone_T T T' F hT l i h
+
+theorem window_monotone_F_full_false : ¬ C02Win.window_monotone_F_full := C02Win.window_monotone_F_full_false
+
+theorem own_copy_confirmed (c : Cl) (ok : PastOK c.cfg.P c.joined c.st) (n mid tok k : Nat)
+    (hk : k ≤ c.cfg.P) (hk' : k ≤ c.cfg.L) :
+    (deliver (C02Win.commits k (send c n mid tok).1) (send c n mid tok).2).2 = .app mid :=
+  (C02Win.own_copy_confirmed c ok n mid tok k hk hk').1
 
 end MdkVerif.Props.C02
